@@ -97,6 +97,93 @@ theorem verify_target_ok_iff (format : Str → Option Str) (c : Ctx) (hv : c.ver
   | nil => simp
   | cons a l => simp
 
+/-! ## generate, then verify -/
+
+theorem joinPath_inj (dir a b : Str) (h : joinPath dir a = joinPath dir b) : a = b := by
+  unfold joinPath at h
+  split at h
+  · exact h
+  · have := List.append_cancel_left h
+    exact (List.cons.inj this).2
+
+theorem writeFile_read (d d' : Disk) (p content q : Str) (h : d.writeFile p content = some d') :
+    d'.readFile q = if q = p then some content else d.readFile q := by
+  unfold Disk.writeFile at h
+  split at h
+  · cases h; simp [Disk.readFile, AL.lookup_insert]
+  · cases h
+
+theorem assembleFile_read_other (format : Str → Option Str) (d : Disk) (f : File) (path q : Str) (hne : q ≠ path) :
+    (assembleFile format d f path).1.readFile q = d.readFile q := by
+  unfold assembleFile
+  cases hf : format (assemble f) with
+  | some b =>
+    cases hw : d.writeFile path b with
+    | none => simp only [hf, hw]
+    | some d' => simp only [hf, hw]; rw [writeFile_read d d' path b q hw, if_neg hne]
+  | none =>
+    cases hw : d.writeFile path (assemble f) with
+    | none => simp only [hf, hw]
+    | some d' => simp only [hf, hw]; rw [writeFile_read d d' path _ q hw, if_neg hne]
+
+/-- generating touches only the paths of the files it writes -/
+theorem generate_other_paths (format : Str → Option Str) (c : Ctx) (hg : c.verify = false) (dir : Str) :
+    ∀ (files : List File) (d : Disk) (p : Str), (∀ f ∈ files, joinPath dir f.name ≠ p) →
+      (assembleAll format c dir files d).1.readFile p = d.readFile p := by
+  intro files
+  induction files with
+  | nil => intro d p _; rfl
+  | cons f fs ih =>
+    intro d p hp
+    simp only [assembleAll, hg, Bool.false_eq_true, if_false]
+    rw [ih _ p (fun g hgm => hp g (List.mem_cons_of_mem _ hgm))]
+    exact assembleFile_read_other format d f _ p (fun e => hp f List.mem_cons_self e.symm)
+
+/-- a generating run that reports no bad file leaves every file of the target on disk, formatted -/
+theorem generate_ok_identical (format : Str → Option Str) (c : Ctx) (hg : c.verify = false) (dir : Str) :
+    ∀ (files : List File) (d : Disk), (files.map (·.name)).Pairwise (· ≠ ·) →
+      (assembleAll format c dir files d).2 = [] →
+      ∀ f ∈ files, Identical format (assembleAll format c dir files d).1 dir f := by
+  intro files
+  induction files with
+  | nil => intro d _ _ f hf; cases hf
+  | cons g gs ih =>
+    intro d hd hok f hf
+    simp only [assembleAll, hg, Bool.false_eq_true, if_false] at hok ⊢
+    have hd' := List.pairwise_cons.mp hd
+    cases ha : (assembleFile format d g (joinPath dir g.name)).2 with
+    | false => simp [ha] at hok
+    | true =>
+      simp only [ha, if_true] at hok
+      rcases List.mem_cons.mp hf with rfl | hfm
+      · -- the file written first: later writes go to other paths
+        rw [Identical]
+        have hother := generate_other_paths format c hg dir gs (assembleFile format d f (joinPath dir f.name)).1
+          (joinPath dir f.name) (fun h hm hj => hd'.1 h.name (List.mem_map.mpr ⟨h, hm, rfl⟩) (joinPath_inj dir _ _ hj).symm)
+        rw [hother]
+        unfold assembleFile at ha ⊢
+        cases hfm : format (assemble f) with
+        | none =>
+          simp only [hfm] at ha
+          split at ha <;> cases ha
+        | some b =>
+          simp only [hfm] at ha ⊢
+          cases hw : d.writeFile (joinPath dir f.name) b with
+          | none => simp [hw] at ha
+          | some d' =>
+            refine ⟨b, rfl, ?_⟩
+            simp only
+            rw [writeFile_read d d' _ b _ hw, if_pos rfl]
+      · exact ih _ hd'.2 hok f hfm
+
+/-- **generate_then_verify_ok**: verifying right after a generating run that reported no error, with the
+same files, reports no error (the files of one target have distinct names: they are the keys of a map) -/
+theorem generate_then_verify_ok (format : Str → Option Str) (c cv : Ctx) (hg : c.verify = false) (hv : cv.verify = true)
+    (dir : Str) (files : List File) (d : Disk) (hd : (files.map (·.name)).Pairwise (· ≠ ·))
+    (hok : (assembleAll format c dir files d).2 = []) :
+    (assembleAll format cv dir files (assembleAll format c dir files d).1).2 = [] :=
+  (verify_loop_ok_iff format cv hv dir files _).mpr (generate_ok_identical format c hg dir files d hd hok)
+
 /-! non-vacuity: a file that is identical on disk, and one that is not -/
 def f1 : File := ⟨"a.go".toList, "go".toList, "p".toList, [], [], [], [], "x\n".toList⟩
 example (fmt : Str → Option Str) (b : Str) (h : fmt (assemble f1) = some b) :
